@@ -24,6 +24,53 @@ def _cut(r, sep):
     return idx, head, tail
 
 
+def _flatten(t):
+    if z3.is_app(t) and t.decl().kind() == z3.Z3_OP_SEQ_CONCAT:
+        out = []
+        for c in t.children():
+            out.extend(_flatten(c))
+        return out
+    return [t]
+
+
+def structural_split(ip, term, sep: str):
+    """If `term` is a concatenation of literals and of pieces that provably cannot contain `sep`, return the exact list
+    of parts (z3 terms) of term.split(sep); otherwise None (the caller falls back to the IndexOf encoding)."""
+    st = ip.st
+    pieces = []
+    for p in _flatten(z3.simplify(term)):
+        while z3.is_app(p) and p.decl().kind() == z3.Z3_OP_ITE:
+            c, a, b = p.children()
+            if st.must(c):
+                p = a
+            elif st.must(z3.Not(c)):
+                p = b
+            else:
+                return None
+        pieces.extend(_flatten(p))
+    parts = [[]]
+    for p in pieces:
+        if z3.is_string_value(p):
+            segs = p.as_string().split(sep)
+            parts[-1].append(z3.StringVal(segs[0]))
+            for sg in segs[1:]:
+                parts.append([z3.StringVal(sg)])
+            continue
+        atomic = False
+        if z3.is_app(p) and p.decl().kind() == z3.Z3_OP_INT_TO_STR and not any(ch.isdigit() for ch in sep):
+            atomic = True           # int.to.str yields only digits (or the empty string)
+        elif st.must(z3.Not(z3.Contains(p, z3.StringVal(sep)))):
+            atomic = True
+        if not atomic:
+            return None
+        parts[-1].append(p)
+    out = []
+    for seg in parts:
+        seg = [x for x in seg if not (z3.is_string_value(x) and x.as_string() == "")] or [z3.StringVal("")]
+        out.append(seg[0] if len(seg) == 1 else z3.Concat(*seg))
+    return out
+
+
 def str_split(ip, args, kwargs, node):
     s = args[0]
     if len(args) < 2 and "sep" not in kwargs:
@@ -52,6 +99,13 @@ def str_split(ip, args, kwargs, node):
 
 def split_unpack(ip, v: VSplit, n: int):
     """exactly n parts, else ValueError (too few: a separator is missing; too many: one is left over)"""
+    sepc = z3.simplify(v.sep)
+    if z3.is_string_value(sepc):
+        exact = structural_split(ip, v.s, sepc.as_string())
+        if exact is not None:
+            if len(exact) != n:
+                raise_("ValueError", "wrong number of values to unpack")
+            return [VStr(x) for x in exact]
     r = v.s
     parts = []
     for _ in range(n - 1):
@@ -70,10 +124,21 @@ def split_unpack(ip, v: VSplit, n: int):
 
 def split_getitem(ip, v: VSplit, idx):
     i = ip.concrete_key(idx)
+    sepc = z3.simplify(v.sep)
+    if z3.is_string_value(sepc):
+        exact = structural_split(ip, v.s, sepc.as_string())
+        if exact is not None:
+            if i >= len(exact) or i < -len(exact):
+                raise_("IndexError")
+            return VStr(exact[i])
     if i == -1:
-        last = z3.LastIndexOf(v.s, v.sep)
-        start = z3.If(last < 0, 0, last + z3.Length(v.sep))
-        return VStr(z3.SubString(v.s, start, z3.Length(v.s) - start))
+        # the last part: s == pre ++ sep ++ part with no separator in part, or the whole string when there is none
+        # (z3's seq.last_indexof is avoided: it produced models that do not satisfy the constraints)
+        pre = ip.st.fresh("pre", z3.StringSort())
+        part = ip.st.fresh("last_part", z3.StringSort())
+        ip.st.assume(z3.Not(z3.Contains(part, v.sep)))
+        ip.st.assume(z3.If(z3.Contains(v.s, v.sep), v.s == z3.Concat(pre, v.sep, part), part == v.s))
+        return VStr(part)
     if i >= 0:
         r = v.s
         for _ in range(i):
